@@ -50,6 +50,8 @@ type ReqParams struct {
 	Queries     int    `json:"queries"`
 	E2e         int    `json:"e2e"`
 	SkipPrivate bool   `json:"skip_private,omitempty"`
+	// Omit (HTTP only): query keys left out of the request; the fields above then hold the documented defaults
+	Omit []string `json:"omit,omitempty"`
 }
 
 func (p ReqParams) ToLib() traceroute.TracerouteParams {
@@ -92,6 +94,9 @@ func (p ReqParams) ToQuery() string {
 	q.Set("reverse-dns", strconv.FormatBool(p.ReverseDns))
 	q.Set("source-public-ip", strconv.FormatBool(p.PublicIP))
 	q.Set("skip-private-hops", strconv.FormatBool(p.SkipPrivate))
+	for _, k := range p.Omit {
+		q.Del(k)
+	}
 	return q.Encode()
 }
 
